@@ -281,8 +281,8 @@ func addShape(t *rapid.T, g *G, o Opts) {
 	var entry Term
 	var rules []Rule
 	P := func(ts ...Term) Prod { return Prod{Terms: ts} }
-	shape := ri(t, 0, 13, "shape")
-	if shape >= 11 && o.Prec {
+	shape := ri(t, 0, 14, "shape")
+	if shape >= 12 && o.Prec {
 		shape = 8
 	}
 	switch shape {
@@ -408,6 +408,23 @@ func addShape(t *rapid.T, g *G, o Opts) {
 				P(tk(3), Term{Kind: sugar, Name: hn("x"), Sep: g.Toks[(base+4)%nT], SepTk: true}, tk(5))}},
 			{Name: hn("x"), Prods: []Prod{P(tk(6))}},
 		}
+	case 10: // nesting with an empty pair: a state that loops on itself and gains lookaheads on the way
+		entry = ruleTerm(hn("n"))
+		a, b := ri(t, 0, nT-1, "open"), ri(t, 0, nT-1, "close")
+		if a == b {
+			b = (a + 1) % nT
+		}
+		pr := []Prod{
+			P(tokTerm(g, a), ruleTerm(hn("n")), tokTerm(g, b)),
+			P(tokTerm(g, a), tokTerm(g, b)),
+		}
+		if rapid.Bool().Draw(t, "atom") {
+			pr = append(pr, P(tk(2)))
+		}
+		if rapid.Bool().Draw(t, "seq") {
+			pr[0] = P(tokTerm(g, a), ruleTerm(hn("n")), ruleTerm(hn("n")), tokTerm(g, b))
+		}
+		rules = []Rule{{Name: hn("n"), Prods: pr}}
 	default: // two nullable siblings followed by a token (FIRST through several nullables)
 		entry = ruleTerm(hn("s"))
 		rules = []Rule{
